@@ -43,7 +43,8 @@ impl Resid {
 
 /// `nested`: the right input is itself a join `t1 x1 <nested> t1 x2 ON x1.id1 = x2.id1` (the probe side of the top join is then a
 /// join OUTPUT: its build-side VARCHAR columns are gathered dictionary-encoded)
-struct Shape { jt: JoinType, form: Form, nkeys: usize, resid: Resid, mixed: bool, nested: Option<JoinType> }
+/// `nested_left`: the nested join is the LEFT input instead (`(t0 x0 <nested> t0 x9 ON x0.id0 = x9.id0) <jt> t1 x1`, a left-deep chain)
+struct Shape { jt: JoinType, form: Form, nkeys: usize, resid: Resid, mixed: bool, nested: Option<JoinType>, nested_left: bool }
 
 fn jt_parse(s: &str) -> JoinType { match s { "left" => JoinType::Left, "right" => JoinType::Right, "full" => JoinType::Full, "semi" => JoinType::Semi, "anti" => JoinType::Anti, "cross" => JoinType::Cross, _ => JoinType::Inner } }
 
@@ -135,7 +136,7 @@ fn colref(side: usize, idx: usize, name: &str, lw: usize, outer: bool) -> Expr {
 
 /// ON / correlation condition.  `exists`: the expression stands inside the subquery over x1 (x1 columns are `Col`, x0 columns `Outer`)
 fn condition(cat: &Catalog, sh: &Shape, exists: bool) -> Option<Expr> {
-    let lw = cat.tables[0].cols.len();
+    let lw = cat.tables[0].cols.len() * if sh.nested_left { 2 } else { 1 };
     let l = |idx: usize| -> Expr { let n = &cat.tables[0].cols[idx].name; if exists { colref(0, idx, n, lw, true) } else { colref(0, idx, n, lw, false) } };
     let rr = |idx: usize| -> Expr { let n = &cat.tables[1].cols[idx].name; if exists { Expr::Col { i: idx, sql: format!("x1.{}", n) } } else { colref(1, idx, n, lw, false) } };
     let mut conj: Vec<Expr> = vec![];
@@ -155,12 +156,14 @@ fn condition(cat: &Catalog, sh: &Shape, exists: bool) -> Option<Expr> {
 
 /// `all_cols`: project every column (operator-level cases compare the operator's full output)
 fn build_query(cat: &Catalog, sh: &Shape, all_cols: bool) -> QueryExpr {
-    let lw = cat.tables[0].cols.len(); let rw = cat.tables[1].cols.len();
+    let lw0 = cat.tables[0].cols.len();
+    // width of the top join's left input
+    let lw = lw0 * if sh.nested_left { 2 } else { 1 }; let rw = cat.tables[1].cols.len();
     let t0 = Rel::Table { t: 0, name: "t0".into(), alias: "x0".into() };
     let t1 = Rel::Table { t: 1, name: "t1".into(), alias: "x1".into() };
     let left_only = matches!(sh.jt, JoinType::Semi | JoinType::Anti);
     let mut proj: Vec<(Expr, String)> = vec![];
-    let lcols: Vec<usize> = if all_cols { (0..lw).collect() } else { vec![0, 1, 4] };
+    let lcols: Vec<usize> = if all_cols { (0..lw0).collect() } else { vec![0, 1, 4] };
     let rcols: Vec<usize> = if all_cols { (0..rw).collect() } else { vec![0, 1, 4] };
     for &i in &lcols { proj.push((colref(0, i, &cat.tables[0].cols[i].name, lw, false), format!("o{}", proj.len()))); }
     if !left_only { for &i in &rcols { proj.push((colref(1, i, &cat.tables[1].cols[i].name, lw, false), format!("o{}", proj.len()))); } }
@@ -171,6 +174,15 @@ fn build_query(cat: &Catalog, sh: &Shape, all_cols: bool) -> QueryExpr {
         return QueryExpr::of(Body::Select(Box::new(Select { from: Some(t0), where_, group: None, having: None, proj, distinct: false })));
     }
     let on = if sh.jt == JoinType::Cross { None } else { condition(cat, sh, false) };
+    if let (Some(jt2), true) = (sh.nested, sh.nested_left) {
+        let t9 = Rel::Table { t: 0, name: "t0".into(), alias: "x9".into() };
+        let id = &cat.tables[0].cols[0].name;
+        let on2 = Expr::bin(BinOp::Eq, Expr::Col { i: 0, sql: format!("x0.{}", id) }, Expr::Col { i: lw0, sql: format!("x9.{}", id) });
+        let left = Rel::Join { jt: jt2, l: Box::new(t0), r: Box::new(t9), lw: lw0, rw: lw0, on: Some(on2) };
+        proj.push((Expr::Col { i: lw0, sql: format!("x9.{}", id) }, format!("o{}", proj.len())));
+        let from = Rel::Join { jt: sh.jt, l: Box::new(left), r: Box::new(t1), lw, rw, on };
+        return QueryExpr::of(Body::Select(Box::new(Select { from: Some(from), where_: None, group: None, having: None, proj, distinct: false })));
+    }
     if let Some(jt2) = sh.nested {
         let t2 = Rel::Table { t: 1, name: "t1".into(), alias: "x2".into() };
         let id = &cat.tables[1].cols[0].name;
@@ -209,7 +221,8 @@ fn gen_shape(r: &mut Rng, n: usize, o: &Opts) -> Shape {
     let mixed = jt != JoinType::Cross && match o.get_usize("mixed", 1) { 0 => false, 2 => true, _ => r.chance(1, 40) };
     let nested = if form == Form::Join && jt != JoinType::Cross && !mixed && o.get_usize("nested", 1) >= 1 && (o.get_usize("nested", 1) == 2 || r.chance(1, 8)) {
         Some(*r.pick(&[JoinType::Inner, JoinType::Left, JoinType::Right])) } else { None };
-    Shape { jt, form, nkeys, resid, mixed, nested }
+    let nested_left = nested.is_some() && r.chance(1, 2);
+    Shape { jt, form, nkeys, resid, mixed, nested, nested_left }
 }
 
 fn size_classes(r: &mut Rng, n: usize, o: &Opts, op: bool) -> (String, String) {
@@ -372,7 +385,7 @@ fn run_op(case: &Value) -> Value {
 
 fn gen_op_case(r: &mut Rng, n: usize, o: &Opts) -> (Value, Value) {
     let mut sh = gen_shape(r, n, o);
-    sh.form = Form::Join; sh.mixed = false; sh.nested = None;
+    sh.form = Form::Join; sh.mixed = false; sh.nested = None; sh.nested_left = false;
     if sh.jt == JoinType::Cross { sh.resid = Resid::None; }
     let (lc, rc) = size_classes(r, n, o, true);
     let (mut cat, desc) = gen_tables(r, &lc, &rc, false, None);
@@ -438,28 +451,35 @@ fn witness_cases() -> Vec<(Value, Value)> {
     };
     // F1  filtered Semi/Anti, ≤ 1000 probe rows: the generic loop probes an empty table → SEMI returns nothing
     push("C22-F1", Catalog { tables: vec![table(0, ColTy::I64, vec![row(0, 1, 1), row(1, 2, 1)]), table(1, ColTy::I64, vec![row(0, 1, 2), row(1, 3, 2)])] },
-         Shape { jt: JoinType::Semi, form: Form::Join, nkeys: 1, resid: Resid::Lt, mixed: false, nested: None }, "mem1");
+         Shape { jt: JoinType::Semi, form: Form::Join, nkeys: 1, resid: Resid::Lt, mixed: false, nested: None, nested_left: false }, "mem1");
     // F2  filtered Semi, > 1000 probe rows, build = left: only the first qualifying build row of a key is marked
     let l2: Vec<Vec<Val>> = (0..6).map(|k| row(k, k / 2, 1)).collect();
     let r2: Vec<Vec<Val>> = (0..1001).map(|k| row(k, k % 3, 2)).collect();
     push("C22-F2", Catalog { tables: vec![table(0, ColTy::I64, l2), table(1, ColTy::I64, r2)] },
-         Shape { jt: JoinType::Semi, form: Form::Join, nkeys: 1, resid: Resid::Lt, mixed: false, nested: None }, "mem1");
+         Shape { jt: JoinType::Semi, form: Form::Join, nkeys: 1, resid: Resid::Lt, mixed: false, nested: None, nested_left: false }, "mem1");
     // F3  BIGINT build key (dense: direct-address table) probed with an INTEGER key
     push("C22-F3", Catalog { tables: vec![table(0, ColTy::I64, vec![row(0, 1, 1), row(1, 2, 1)]), table(1, ColTy::I32, vec![row(0, 1, 2), row(1, 3, 2)])] },
-         Shape { jt: JoinType::Left, form: Form::Join, nkeys: 1, resid: Resid::None, mixed: true, nested: None }, "mem1");
+         Shape { jt: JoinType::Left, form: Form::Join, nkeys: 1, resid: Resid::None, mixed: true, nested: None, nested_left: false }, "mem1");
     // F4  LEFT JOIN whose build (right) input yields no batch at all: the NULL-extended rows cannot be assembled
     let mut empty = table(1, ColTy::I64, vec![]); empty.cuts = vec![];
     push("C22-F4", Catalog { tables: vec![table(0, ColTy::I64, vec![row(0, 1, 1), row(1, 2, 1)]), empty] },
-         Shape { jt: JoinType::Left, form: Form::Join, nkeys: 1, resid: Resid::None, mixed: false, nested: None }, "memb");
+         Shape { jt: JoinType::Left, form: Form::Join, nkeys: 1, resid: Resid::None, mixed: false, nested: None, nested_left: false }, "memb");
     // F5  filtered Semi, > 1000 probe rows (build = right): the compiled residual reads the NULL v0 of row 0 as 0, and 0 <> 2
     let l5: Vec<Vec<Val>> = (0..1001).map(|k| vec![i(k), i(k % 3), i(0), i(0), if k == 0 { nl() } else { i(2) }]).collect();
     let r5: Vec<Vec<Val>> = (0..3).map(|k| row(k, k, 2)).collect();
     push("C22-F5", Catalog { tables: vec![table(0, ColTy::I64, l5), table(1, ColTy::I64, r5)] },
-         Shape { jt: JoinType::Semi, form: Form::Join, nkeys: 1, resid: Resid::Ne, mixed: false, nested: None }, "mem1");
+         Shape { jt: JoinType::Semi, form: Form::Join, nkeys: 1, resid: Resid::Ne, mixed: false, nested: None, nested_left: false }, "mem1");
     // F6  VARCHAR key, probe input = a join output (its build-side strings arrive dictionary-encoded): no match
     let srow = |id: i64, a: &str, v: i64| vec![i(id), Val::S(a.into()), i(0), i(0), i(v)];
     push("C22-F6", Catalog { tables: vec![table(0, ColTy::Str, vec![srow(0, "a", 1)]), table(1, ColTy::Str, vec![srow(0, "a", 2), srow(1, "b", 2)])] },
-         Shape { jt: JoinType::Inner, form: Form::Join, nkeys: 1, resid: Resid::None, mixed: false, nested: Some(JoinType::Left) }, "mem1");
+         Shape { jt: JoinType::Inner, form: Form::Join, nkeys: 1, resid: Resid::None, mixed: false, nested: Some(JoinType::Left), nested_left: false }, "mem1");
+    // F7  COUNT(col) over a join counts the NULL of a build-side VARCHAR column (dictionary with a NULL value, no NULL key)
+    let nsrow = |id: i64, v: i64| vec![i(id), nl(), i(0), i(0), i(v)];
+    push("C22-F7", Catalog { tables: vec![table(0, ColTy::Str, vec![srow(0, "a", 1), nsrow(1, 1)]), table(1, ColTy::Str, vec![srow(0, "a", 2), srow(1, "b", 2)])] },
+         Shape { jt: JoinType::Cross, form: Form::Count, nkeys: 0, resid: Resid::None, mixed: false, nested: None, nested_left: false }, "mem1");
+    // F8  Semi join over a join output with a VARCHAR column: the probe rows are emitted under the declared Utf8 schema
+    push("C22-F8", Catalog { tables: vec![table(0, ColTy::Str, vec![srow(0, "a", 1), srow(1, "b", 1), srow(2, "a", 1)]), table(1, ColTy::Str, vec![srow(0, "a", 2)])] },
+         Shape { jt: JoinType::Semi, form: Form::Join, nkeys: 1, resid: Resid::None, mixed: false, nested: Some(JoinType::Left), nested_left: true }, "memb");
     out
 }
 
